@@ -17,7 +17,114 @@ pub fn history_case(name: &str, lines: &[HLine]) -> Case {
     c
 }
 
+/// Validation of the second translator: the bookkeeping methods of `EncoderWork` / `DecoderWork` as
+/// translated from today's source (`srcwork`) are run on the same call histories as the implementation
+/// (all flavours; the rate and the layout come from the harness's own rule) and must give the same
+/// verdict and the same error value at every add / encode / decode call.
+pub fn src_work_tie(ctx: &mut Ctx) {
+    let exe = std::path::Path::new(&ctx.model_path).with_file_name("srcwork");
+    if !exe.exists() {
+        ctx.unavailable.push("srcwork not built: the translated work-object methods were not run against the implementation".into());
+        return;
+    }
+    let n = if ctx.thorough() { 3000 } else { 300 };
+    let mut all_lines: Vec<String> = vec![];
+    let mut expect: Vec<Option<(String, String)>> = vec![]; // (implementation line, implementation answer) for compared lines
+    for i in 0..n {
+        let o = HistOpts { p_fail: 350, rounds: 1 + ctx.rng.below(3), max_work: *ctx.rng.pick(&[16usize, 32, 64]), sizes: vec![2, 4, 6, 64, 66], engines: vec!["nosimd"], ..Default::default() };
+        let enc = i % 2 == 0;
+        let h = if enc { enc_history(&mut ctx.rng, &o) } else { dec_history(&mut ctx.rng, &o) };
+        let mut s = crate::objs::Session::new();
+        all_lines.push("Z".into());
+        expect.push(None);
+        let mut kind = String::new();
+        for hl in flatten(&h) {
+            let l = hl.line.clone();
+            let a = s.exec(&l).0.line();
+            let t: Vec<&str> = l.split(' ').collect();
+            let ok = a == "ok" || a.starts_with("ok ");
+            let mut push = |w: String, cmp: bool| {
+                all_lines.push(w);
+                expect.push(if cmp { Some((l.clone(), a.clone())) } else { None });
+            };
+            match (t[0], t[1]) {
+                (_, "new") | (_, "renew") | (_, "reset") => {
+                    if !ok { continue; }
+                    let (kd, k, r, sb): (String, usize, usize, usize) = if t[1] == "reset" {
+                        (kind.clone(), t[2].parse().unwrap(), t[3].parse().unwrap(), t[4].parse().unwrap())
+                    } else {
+                        (t[2].to_string(), t[4].parse().unwrap(), t[5].parse().unwrap(), t[6].parse().unwrap())
+                    };
+                    kind = kd.clone();
+                    let high = match kd.as_str() { "high" => true, "low" => false, _ => crate::gen::rule_is_high(k, r) };
+                    let (kp, rp) = (crate::gen::npow2(k), crate::gen::npow2(r));
+                    if t[0] == "E" {
+                        let wc = if high { k.next_multiple_of(rp) } else { r.next_multiple_of(kp) };
+                        push(format!("W enew {} {} {} {}", k, r, sb, wc), false);
+                    } else {
+                        let (ob, rb, wc) = if high { (rp, 0, crate::gen::npow2(rp + k)) } else { (0, kp, crate::gen::npow2(kp + r)) };
+                        push(format!("W dnew {} {} {} {} {} {}", k, r, sb, ob, rb, wc), false);
+                    }
+                }
+                ("E", "add") => push(format!("W eadd {}", if t[2] == "_" { 0 } else { t[2].len() / 2 }), true),
+                ("E", "encode") => {
+                    push("W ebegin".into(), true);
+                    if ok { push("W eclear".into(), false); }
+                }
+                ("D", "addo") => push(format!("W daddo {} {}", t[2], if t[3] == "_" { 0 } else { t[3].len() / 2 }), true),
+                ("D", "addr") => push(format!("W daddr {} {}", t[2], if t[3] == "_" { 0 } else { t[3].len() / 2 }), true),
+                ("D", "decode") => {
+                    push("W dbegin".into(), true);
+                    if ok { push("W dclear".into(), false); }
+                }
+                _ => {}
+            }
+        }
+    }
+    let answers = {
+        // histories are independent (each starts with Z): split at Z boundaries over processes
+        let np = 14usize;
+        let mut groups: Vec<Vec<String>> = vec![vec![]; np];
+        let mut gi = 0usize;
+        let mut which: Vec<usize> = vec![];
+        for l in &all_lines {
+            if l == "Z" { gi = (gi + 1) % np; }
+            groups[gi].push(l.clone());
+            which.push(gi);
+        }
+        let path = exe.to_string_lossy().to_string();
+        let handles: Vec<_> = groups.into_iter().map(|g| { let p = path.clone(); std::thread::spawn(move || if g.is_empty() { Ok(vec![]) } else { crate::ctx::model_eval_at(&p, &g) }) }).collect();
+        let mut outs: Vec<std::collections::VecDeque<String>> = vec![];
+        for h in handles {
+            match h.join().unwrap() {
+                Ok(a) => outs.push(a.into()),
+                Err(e) => { ctx.model_fail(format!("srcwork could not be run: {}", e), &Case::new("src-work-tie"), None); return; }
+            }
+        }
+        which.iter().map(|g| outs[*g].pop_front().unwrap_or_default()).collect::<Vec<String>>()
+    };
+    let mut bad = 0;
+    let mut compared = 0;
+    for ((w, a), e) in all_lines.iter().zip(answers.iter()).zip(expect.iter()) {
+        if let Some((il, ia)) = e {
+            compared += 1;
+            // verdict and error value; payloads (shards) are not part of the bookkeeping
+            let same = if ia == "ok" || ia.starts_with("ok ") { a == "ok" || a.starts_with("ok ") } else { ia == a };
+            if !same {
+                bad += 1;
+                if bad <= 5 {
+                    let c = Case { name: "src-work-tie".into(), lines: vec![il.clone()], with_model: false };
+                    ctx.model_fail(format!("translated source answers `{}` to `{}` but the implementation answers `{}` to `{}`", a, w, crate::ctx::short(ia), crate::ctx::short(il)), &c, None);
+                }
+            }
+        }
+    }
+    ctx.bump("translated_work_methods_vs_implementation_calls", compared);
+    ctx.model_lines += compared;
+}
+
 pub fn run(ctx: &mut Ctx) {
+    src_work_tie(ctx);
     let n = if ctx.thorough() { 6000 } else { 500 };
     let mut cases = vec![];
     for i in 0..n {
